@@ -64,6 +64,93 @@ class OpenRec:
         return self.raw is None or self.raw.closed
 
 
+class SimRawFile(io.RawIOBase):
+    """
+    Faulting raw device backed by a real file in the run's scratch directory: everything else pane (or a
+    future implementation of it) may do to the path - os.replace, os.remove, tempfile siblings, fsync -
+    keeps working on the real file system, while every raw read/write issued through the `open` seam
+    consults the fault plan.
+    """
+
+    def __init__(self, fs, path, mode, name):
+        super().__init__()
+        self.fs = fs
+        self.inner = io.FileIO(path, mode)
+        self.name = name
+        self.mode = self.inner.mode
+        self.n_writes = 0
+        self.n_reads = 0
+        self.close_calls = 0
+
+    def readable(self):
+        return self.inner.readable()
+
+    def writable(self):
+        return self.inner.writable()
+
+    def seekable(self):
+        return True
+
+    def fileno(self):
+        return self.inner.fileno()
+
+    def isatty(self):
+        return False
+
+    def seek(self, off, whence=0):
+        return self.inner.seek(off, whence)
+
+    def tell(self):
+        return self.inner.tell()
+
+    def truncate(self, size=None):
+        return self.inner.truncate(size)
+
+    def write(self, b):
+        if self.closed:
+            raise ValueError("write to closed file")
+        b = bytes(b)
+        self.n_writes += 1
+        fs = self.fs
+        fs.counters['raw_writes'] += 1
+        n = len(b)
+        for f in fs.active_faults('raw_write'):
+            if n and f.hit():
+                fs.note_fired(f, self)
+                if f.kind == 'short':
+                    n = max(1, min(n - 1, fs.short_len)) if n > 1 else n
+                else:
+                    raise f.make_exc('raw write')
+        return self.inner.write(b[:n])
+
+    def readinto(self, buf):
+        if self.closed:
+            raise ValueError("read of closed file")
+        self.n_reads += 1
+        fs = self.fs
+        fs.counters['raw_reads'] += 1
+        n = min(len(buf), fs.read_chunk)
+        for f in fs.active_faults('raw_read'):
+            if n and f.hit():
+                fs.note_fired(f, self)
+                if f.kind == 'short':
+                    n = 1
+                else:
+                    raise f.make_exc('raw read')
+        data = self.inner.read(n)
+        if data is None:
+            return None
+        buf[:len(data)] = data
+        return len(data)
+
+    def close(self):
+        self.close_calls += 1
+        try:
+            self.inner.close()
+        finally:
+            super().close()
+
+
 class SimRaw(io.RawIOBase):
     def __init__(self, fs, data: bytearray, readable, writable, append=False, name='<sim>'):
         super().__init__()
@@ -159,7 +246,6 @@ class SimRaw(io.RawIOBase):
 
 class SimFS:
     def __init__(self, knobs):
-        self.files = {}            # path(str) -> bytearray
         self.opens = []            # all OpenRec of the run
         self.knobs = knobs
         self.buffer_size = knobs.get('buffer_size', 8192)
@@ -199,7 +285,7 @@ class SimFS:
             if f.hit():
                 self.note_fired(f, None)
                 self.opens.append(rec)
-                raise f.make_exc(f"open({path!r})")
+                raise f.make_exc(f"open({os.path.basename(path)!r})")
         m = set(mode)
         if not m <= set('rwxabt+') or len(m & set('rwxa')) != 1:
             raise ValueError(f"invalid mode: {mode!r}")
@@ -207,19 +293,12 @@ class SimFS:
         if binary and (encoding is not None or newline is not None):
             raise ValueError("binary mode doesn't take an encoding/newline argument")
         creating = 'w' in m or 'x' in m or 'a' in m
-        if 'x' in m and path in self.files:
-            raise FileExistsError(errno.EEXIST, 'File exists', path)
-        if not creating and path not in self.files:
-            self.opens.append(rec)
-            raise FileNotFoundError(errno.ENOENT, 'No such file or directory', path)
-        if 'w' in m:
-            self.files[path] = bytearray()
-        data = self.files.setdefault(path, bytearray())
         readable = 'r' in m or '+' in m
         writable = creating or '+' in m
-        raw = SimRaw(self, data, readable, writable, append='a' in m, name=path)
-        rec.raw = raw
+        rawmode = ''.join(c for c in 'rwxa' if c in m) + ('+' if '+' in m else '')
         self.opens.append(rec)
+        raw = SimRawFile(self, path, rawmode, os.path.basename(path))   # raises like the real open does
+        rec.raw = raw
         bs = self.buffer_size if buffering in (-1, None) or buffering < 0 else buffering
         if readable and writable:
             buf = io.BufferedRandom(raw, buffer_size=max(bs, 1))
@@ -279,3 +358,62 @@ def make_caller_wrapper(fs: SimFS, encoding, newline, buffer_size=None):
     buf = io.BufferedRandom(raw, buffer_size=max(buffer_size or fs.buffer_size, 1))
     w = io.TextIOWrapper(buf, encoding=encoding, newline=newline, write_through=fs.write_through)
     return w, raw
+
+
+class ChunkyText(io.TextIOBase):
+    """
+    A caller-owned text stream that is neither a StringIO nor a TextIOWrapper (think: a stream over a
+    socket, a decompressor or a line producer).  read(n) returns at most `chunk` characters even when
+    more follow - which io.TextIOBase allows: only '' means end of stream.
+    """
+
+    def __init__(self, fs, chunk):
+        super().__init__()
+        self._fs = fs
+        self._buf = io.StringIO()
+        self._chunk = max(1, chunk)
+        self.short_reads = 0
+
+    def readable(self):
+        return True
+
+    def writable(self):
+        return True
+
+    def seekable(self):
+        return True
+
+    def read(self, size=-1):
+        self._checkClosed()
+        if size is None or size < 0:
+            return self._buf.read()
+        n = min(size, self._chunk)
+        out = self._buf.read(n)
+        if n < size and len(out) == n:
+            self.short_reads += 1
+            self._fs.counters['text_short_reads'] = self._fs.counters.get('text_short_reads', 0) + 1
+        return out
+
+    def readline(self, size=-1):
+        self._checkClosed()
+        return self._buf.readline(size)
+
+    def write(self, s):
+        self._checkClosed()
+        return self._buf.write(s)
+
+    def seek(self, off, whence=0):
+        self._checkClosed()
+        return self._buf.seek(off, whence)
+
+    def tell(self):
+        return self._buf.tell()
+
+    def truncate(self, size=None):
+        return self._buf.truncate(size)
+
+    def flush(self):
+        pass
+
+    def getvalue(self):
+        return self._buf.getvalue()
